@@ -1,0 +1,82 @@
+//! Verification facade (feature `verif-hooks`): one BMP connection handler
+//! with a caller supplied `bmp-in` filter, outside of a running pipeline
+//! (what `RouterHandler::mock` builds under cfg(test)). Add-only.
+use std::net::SocketAddr;
+use std::sync::Arc;
+
+use arc_swap::ArcSwap;
+use bytes::Bytes;
+use routecore::bmp::message::Message as BmpMsg;
+use tokio::sync::Mutex;
+
+use crate::comms::{Gate, GateAgent};
+use crate::ingress;
+
+use super::metrics::BmpTcpInMetrics;
+use super::router_handler::RouterHandler;
+use super::state_machine::{BmpState, BmpStateMachineMetrics};
+use super::status_reporter::BmpTcpInStatusReporter;
+use super::unit::{BmpTcpIn, RotoFunc};
+
+pub struct FilteredRouter {
+    handler: RouterHandler,
+    gate: Gate,
+    addr: SocketAddr,
+    ingress_id: ingress::IngressId,
+}
+
+impl FilteredRouter {
+    pub fn new(
+        roto_function: Option<RotoFunc>,
+        addr: SocketAddr,
+        ingress_id: ingress::IngressId,
+        register: Arc<ingress::Register>,
+    ) -> (Self, GateAgent) {
+        let (gate, agent) = Gate::new(0);
+        let unit_metrics = Arc::new(BmpTcpInMetrics::new(&gate));
+        let bmp_metrics = Arc::new(BmpStateMachineMetrics::new());
+        let reporter =
+            Arc::new(BmpTcpInStatusReporter::new("verif", unit_metrics));
+        let state = BmpState::new(
+            ingress_id,
+            Arc::new(ingress_id.to_string()),
+            reporter.clone(),
+            bmp_metrics.clone(),
+            register,
+        );
+        let handler = RouterHandler::new(
+            gate.clone(),
+            roto_function,
+            Arc::new(ArcSwap::from_pointee(
+                BmpTcpIn::default_router_id_template(),
+            )),
+            Default::default(),
+            reporter,
+            Arc::new(Mutex::new(Some(state))),
+            Default::default(),
+            Default::default(),
+            None,
+            bmp_metrics,
+        );
+        (Self { handler, gate, addr, ingress_id }, agent)
+    }
+
+    pub fn gate(&self) -> &Gate {
+        &self.gate
+    }
+
+    /// One frame as read from the TCP stream. `None`: not a BMP message
+    /// (`read_from_router` skips it).
+    pub async fn process(&self, frame: Bytes) -> Option<Result<(), String>> {
+        let msg = BmpMsg::from_octets(frame).ok()?;
+        Some(
+            self.handler
+                .verif_process_msg(self.addr, self.ingress_id, msg)
+                .await,
+        )
+    }
+
+    pub async fn phase(&self) -> u8 {
+        self.handler.verif_phase().await
+    }
+}
